@@ -8,6 +8,22 @@ import shutil
 import common
 
 
+class W(object):
+    """a waiter as the solver registers them: an object with name() / base_name() (two of them share a base name)"""
+
+    def __init__(self, full):
+        self.full = full
+
+    def name(self):
+        return self.full
+
+    def base_name(self):
+        return self.full.split(".", 1)[1]
+
+    def __repr__(self):
+        return self.full
+
+
 class Driver(object):
     """a real DependencyTracker driven by a history of operations"""
 
@@ -15,12 +31,18 @@ class Driver(object):
         from habutax.solver import DependencyTracker
         self.t = DependencyTracker()
         self.gen = None
+        self.ws = {}
+
+    def waiter(self, full):
+        if full not in self.ws:
+            self.ws[full] = W(full)
+        return self.ws[full]
 
     def apply(self, op):
         t = self.t
         k = op["op"]
         if k == "add":
-            t.add_unmet(op["d"], op["w"])
+            t.add_unmet(op["d"], self.waiter(op["w"]))
             return "None"
         if k == "meet":
             t.meet(op["d"])
@@ -33,14 +55,14 @@ class Driver(object):
             if self.gen is None:
                 self.gen = t.met_dependents()
             try:
-                return next(self.gen)
+                return next(self.gen).name()
             except StopIteration:
                 self.gen = None
                 return "STOP"
         raise ValueError(k)
 
     def state(self):
-        return {"unmet": {d: list(w) for d, w in self.t._unmet.items()}, "met": list(self.t._met)}
+        return {"unmet": {d: [x.name() for x in w] for d, w in self.t._unmet.items()}, "met": list(self.t._met)}
 
 
 def real_graph(deps, waiters, max_ops):
@@ -90,7 +112,7 @@ def run(tier, rep, cov):
                 rep.violation("tracker-model:%s" % v, mc.error_excerpt(60), {"kind": "tlc-counterexample"})
         elif not mc.ok:
             raise common.MachineryError("TLC failed on Tracker.tla:\n" + mc.error_excerpt(40))
-        trans, nstates = real_graph(["d1", "d2"], ["w1", "w2", "w3"], 5 if tier == "quick" else 6)
+        trans, nstates = real_graph(["d1", "d2"], ["f.w1", "g.w1", "f.w2"], 5 if tier == "quick" else 6)
         path = os.path.join(work, "trk.json")
         json.dump({"trans": trans}, open(path, "w"))
         c2 = os.path.join(work, "v.cfg")
